@@ -1,5 +1,6 @@
 SPECIFICATION Spec
 CONSTANTS N = 3
+ WithInline = FALSE
  Transitive = TRUE
 INVARIANTS FiniteSize Emit
 CHECK_DEADLOCK FALSE
